@@ -112,9 +112,27 @@ package transport
 //@   ensures_assumed iff(result1 == nil, result0 != nil)
 //@ assume iface Factory.Connect
 //@   ensures_assumed iff(result1 == nil, result0 != nil)
+// ParseOptions builds a FRESH option list (the caller's variadic slice is only read: sharing one
+// option slice between concurrent Connect/Listen calls is fine) and applies the options in order
+// to a fresh Options value.
 // ASSUMED: transport options derive their context from the one they are given (context.WithValue,
 // as tcp.WithOptions does); WithContext with a foreign context is outside the C13 statement.
-//@ assume func ParseOptions
-//@   event
+//@ property C13 C12
+//@ assume functype github.com/go-netty/go-netty/transport.Option
 //@   modifies Options.*
+//@ func withAddress
+//@   ensures result != nil
+//@ func (*Options).Apply
+//@   requires lo != nil
+//@   assumes non_nil_options: forall(i, 0, len(options), options[i] != nil)
+//@   may_panic true
+//@   modifies Options.*
+//@   loop 0 modifies Options.*
+//@   loop 0 emits
+//@   loop 0 invariant -1 <= rangeindex && rangeindex < len(options)
+//@ func ParseOptions
+//@   event
+//@   may_panic true
+//@   modifies Options.*
+//@   ensures fresh_options: result0 != nil && fresh(result0)
 //@   ensures_assumed implies(result1 == nil, result0 != nil && result0.Context != nil && ctxdone(result0.Context) == ctxdone(ctx))
